@@ -432,8 +432,14 @@ fn empty_result() -> RunResult {
 
 /// Run one plan end to end. `check_ref_repeat`: also demand that the
 /// sequential reference itself is repeatable inside this process.
+pub static T_REF: std::sync::atomic::AtomicU64 = std::sync::atomic::AtomicU64::new(0);
+pub static T_PRISTINE: std::sync::atomic::AtomicU64 = std::sync::atomic::AtomicU64::new(0);
+pub static T_SIM: std::sync::atomic::AtomicU64 = std::sync::atomic::AtomicU64::new(0);
+
 pub fn run_plan(plan: &Plan, replay: Option<Vec<u32>>, watchdog_s: u64, check_ref_repeat: bool) -> (RunResult, Option<Violation>) {
+    let t_ref = std::time::Instant::now();
     let refs = reference(plan);
+    T_REF.fetch_add(t_ref.elapsed().as_micros() as u64, std::sync::atomic::Ordering::Relaxed);
     let last = plan.cases.len() - 1;
     let first_use = |k: &RefKey| -> usize {
         plan.history
@@ -461,7 +467,10 @@ pub fn run_plan(plan: &Plan, replay: Option<Vec<u32>>, watchdog_s: u64, check_re
     }
     let mut pristine_checked = 0;
     if plan.pristine {
-        match pristine_reference(plan) {
+        let t_p = std::time::Instant::now();
+        let pr = pristine_reference(plan);
+        T_PRISTINE.fetch_add(t_p.elapsed().as_micros() as u64, std::sync::atomic::Ordering::Relaxed);
+        match pr {
             Ok(p) => {
                 for (k, line) in &p {
                     pristine_checked += 1;
@@ -489,7 +498,9 @@ pub fn run_plan(plan: &Plan, replay: Option<Vec<u32>>, watchdog_s: u64, check_re
             }
         }
     }
+    let t_s = std::time::Instant::now();
     let mut r = exec_sim(plan, replay, watchdog_s);
+    T_SIM.fetch_add(t_s.elapsed().as_micros() as u64, std::sync::atomic::Ordering::Relaxed);
     r.pristine_checked = pristine_checked;
     let v = compare(plan, &r.outcomes, &refs);
     (r, v)
